@@ -31,6 +31,8 @@ pub struct Emit<'a> {
     umemo: HashMap<u32, String>,
     /// nodes emitted as fresh variables (cut with abstraction)
     pub abs: Vec<u32>,
+    /// integer mode (SymI): every variable is Int-sorted, no fractions
+    pub int: bool,
 }
 
 fn num(n: i128) -> String {
@@ -63,6 +65,7 @@ impl<'a> Emit<'a> {
             udecl: HashMap::new(),
             umemo: HashMap::new(),
             abs: vec![],
+            int: false,
         };
         s.den("1.0".into());
         s
@@ -115,6 +118,11 @@ impl<'a> Emit<'a> {
             let v = self.declare("abs");
             self.memo.insert(id, (v.clone(), 0));
             return (v, 0);
+        }
+        if self.int {
+            let r = self.tm_int(id);
+            self.memo.insert(id, (r.clone(), 0));
+            return (r, 0);
         }
         let n = self.e.nodes[id as usize].clone();
         let r = match n {
@@ -267,6 +275,49 @@ impl<'a> Emit<'a> {
         };
         self.memo.insert(id, r.clone());
         r
+    }
+    /// integer-sorted emission: Rust's truncating `/` and `%` through fresh quotient/remainder pairs
+    fn tm_int(&mut self, id: u32) -> String {
+        let lit = |n: i128| if n < 0 { format!("(- {})", -n) } else { format!("{}", n) };
+        match self.e.nodes[id as usize].clone() {
+            Node::Var(v) => {
+                if !self.vars.contains(&v) {
+                    writeln!(self.decls, "(declare-fun {} () Int)", v).unwrap();
+                    self.vars.push(v.clone());
+                    if v == "M" {
+                        // the MAX of a machine integer type: at least i8's
+                        self.ax.push("(>= M 127)".into());
+                    }
+                }
+                v
+            }
+            Node::Const(n, _) => lit(n),
+            Node::Neg(a) => { let x = self.tm(a).0; format!("(- {})", x) }
+            Node::Add(a, b) => { let (x, y) = (self.tm(a).0, self.tm(b).0); format!("(+ {} {})", x, y) }
+            Node::Sub(a, b) => { let (x, y) = (self.tm(a).0, self.tm(b).0); format!("(- {} {})", x, y) }
+            Node::Mul(a, b) => {
+                if !self.is_const(a) && !self.is_const(b) { self.nonlinear = true; }
+                let (x, y) = (self.tm(a).0, self.tm(b).0);
+                format!("(* {} {})", x, y)
+            }
+            Node::IDiv(a, b) | Node::IRem(a, b) => {
+                let is_div = matches!(self.e.nodes[id as usize], Node::IDiv(..));
+                let (x, y) = (self.tm(a).0, self.tm(b).0);
+                // one (q, r) pair per operand pair: a = q*b + r, |r| < |b|, r has the sign of a (or is 0)
+                let key = format!("qr {} {}", x, y);
+                let k = if let Some(&k) = self.denidx.get(&key) { k } else {
+                    self.fresh += 1;
+                    let k = self.fresh;
+                    self.denidx.insert(key, k);
+                    writeln!(self.decls, "(declare-fun q.{} () Int)\n(declare-fun m.{} () Int)", k, k).unwrap();
+                    self.nonlinear = true;
+                    self.ax.push(format!("(=> (not (= {} 0)) (and (= {} (+ (* q.{} {}) m.{})) (< (abs m.{}) (abs {})) (>= (* m.{} {}) 0)))", y, x, k, y, k, k, y, k, x));
+                    k
+                };
+                if is_div { format!("q.{}", k) } else { format!("m.{}", k) }
+            }
+            n => panic!("emit: node {:?} in integer mode", n),
+        }
     }
     fn need_pi(&mut self) {
         let id = self.e.index.get(&Node::Var("PI".into())).copied();
